@@ -305,10 +305,12 @@ uint64_t cmb_timeseries_copy(struct cmb_timeseries *tgt,
         tgt->ta = NULL;
     }
 
+    /* Allocate the full capacity, as for xa: the copy may be added to later */
     const uint64_t csz = dsp_src->count;
+    const uint64_t cap = dsp_src->cursize;
     if (src->ta != NULL) {
-        cmb_assert_debug(csz > 0u);
-        tgt->ta = cmi_calloc(csz, sizeof *(tgt->ta));
+        cmb_assert_debug((csz > 0u) && (csz <= cap));
+        tgt->ta = cmi_calloc(cap, sizeof *(tgt->ta));
         cmi_memcpy(tgt->ta, src->ta, csz * sizeof *(tgt->ta));
     }
 
@@ -318,8 +320,8 @@ uint64_t cmb_timeseries_copy(struct cmb_timeseries *tgt,
     }
 
     if (src->wa != NULL) {
-        cmb_assert_debug(csz > 0u);
-        tgt->wa = cmi_calloc(csz, sizeof *(tgt->wa));
+        cmb_assert_debug((csz > 0u) && (csz <= cap));
+        tgt->wa = cmi_calloc(cap, sizeof *(tgt->wa));
         cmi_memcpy(tgt->wa, src->wa, csz * sizeof *(tgt->wa));
     }
 
